@@ -211,7 +211,7 @@ package ptrace
 //@ func runner/ptrace.(*Runner).Run props C03 C04 C15
 //@   arith int
 //@   requires r != nil && len(r.Seccomp) <= 65535
-//@   ensures @C15 @C04 len(r.Seccomp) == 0 ==> int(result.Status) == 8 && len(result.Error) > 0
+//@   ensures @C15 @C04 len(old(r.Seccomp)) == 0 ==> int(result.Status) == 8 && len(result.Error) > 0
 //@   callsite Trace: assert @C15 @C04 len(r.Seccomp) >= 1
 //@   callsite Trace: assert @C04 t.Runner == ch && ref_as(ch, forkexec.Runner) != nil && ref_as(ch, forkexec.Runner).Ptrace && !ref_as(ch, forkexec.Runner).StopBeforeSeccomp && (len(r.Seccomp) == 0 <==> ref_as(ch, forkexec.Runner).Seccomp == nil)
 //@   callsite Trace: assert @C03 t.Handler == th && ref_as(th, tracerHandler) != nil && ref_as(th, tracerHandler).Handler == r.Handler && ref_as(th, tracerHandler).Unsafe == r.Unsafe
